@@ -49,6 +49,11 @@ add("C18", "X", "differential testing of two builds (syn1 vs syn2 back-end) over
     "Exploration: each generated input is expanded by two separately built binaries (o2o-impl feature syn / syn2); verdict, token strings and the set of o2o diagnostics must agree.",
     TB + "; dump-syn1 / dump-syn2 are built from the same dump_common.rs", "DESIGN.md 3/C18")
 
+TB2 = TB + "; rustc type-checks and runs both the pasted expansion and the hand-rolled reference, so no expression evaluator is trusted; leaf types are i64/i32"
+add("C01", "E2", "property-based testing: generated mapping plans, compile-and-run differential against a hand-rolled reference",
+    "Exploration: semantic mapping plans (10 documented struct forms, all 12 kinds, every member-instruction role) are rendered into o2o instructions and, independently, into reference functions; each batch is compiled by rustc next to harness-owned types and run on distinct leaf values; whole-value equality per conversion flavour.",
+    TB2, "DESIGN.md 3/C01")
+
 NOT_YET = {
 }
 
